@@ -17,6 +17,12 @@ import pandas as pd
 sys.path.insert(0, os.path.dirname(os.path.abspath(__file__)))
 import common as C  # noqa: E402
 
+if os.environ.get('VERIF_COQ'):       # evaluate against another compiled tree (development only)
+    C.QFLAGS[:] = sum((['-Q', os.path.join(os.environ['VERIF_COQ'], d), 'SSJ'] for d in
+                       ['Num', 'Base', 'Gen', 'Ext', 'Model', 'Spec', 'Proofs', 'Properties']), [])
+if os.environ.get('VERIF_WORK'):
+    C.WORK = os.environ['VERIF_WORK']
+
 KEY_TEXT = 'This attribute can be used as a key attribute.'
 STAT_RE = re.compile(r'^(\d+) \((.+)%\)$')
 COLNAMES = ['id', 'name', 'zip', 'flag', 'price', 'x1']
@@ -24,7 +30,8 @@ HEADER = ['Unique values', 'Missing values', 'Comments']
 
 
 def is_null(v):
-    return v is None or v is pd.NA or (isinstance(v, (float, np.floating)) and math.isnan(v))
+    return v is None or v is pd.NA or v is pd.NaT or (isinstance(v, (float, np.floating)) and math.isnan(v)) \
+        or (isinstance(v, complex) and (math.isnan(v.real) or math.isnan(v.imag)))
 
 
 MIXED = [False]
@@ -34,6 +41,31 @@ def gen_column(rng, nrows):
     """Returns (pandas Series, python values, description)."""
     kind = rng.choice(['int', 'float', 'str', 'bool'])
     mode = rng.choice(['unique', 'dups', 'dups', 'few'])
+    if rng.random() < 0.15 and not MIXED[0]:
+        # dtypes whose missing value is neither None nor a float NaN: datetime64 / timedelta64 (NaT),
+        # the nullable Int64 / boolean extension dtypes (pd.NA), complex128 (nan)
+        ext = rng.choice(['datetime', 'timedelta', 'Int64', 'boolean', 'complex'])
+        base = rng.sample(range(1, 400), max(nrows, 3))[:nrows]
+        if mode != 'unique' and nrows >= 2:
+            a_, b_ = rng.sample(range(nrows), 2)
+            base[a_] = base[b_]
+        holes = [k for k in range(nrows) if rng.random() < 0.3]
+        if rng.random() < 0.4:
+            holes = []
+        if ext == 'datetime':
+            vals = [pd.Timestamp('2020-01-01') + pd.Timedelta(days=k) for k in base]
+            ser = pd.Series([pd.NaT if i in holes else v for i, v in enumerate(vals)], dtype='datetime64[ns]')
+        elif ext == 'timedelta':
+            ser = pd.Series([pd.NaT if i in holes else pd.Timedelta(hours=k) for i, k in enumerate(base)],
+                            dtype='timedelta64[ns]')
+        elif ext == 'Int64':
+            ser = pd.Series([pd.NA if i in holes else k for i, k in enumerate(base)], dtype='Int64')
+        elif ext == 'boolean':
+            ser = pd.Series([pd.NA if i in holes else (k % 2 == 0) for i, k in enumerate(base)], dtype='boolean')
+        else:
+            ser = pd.Series([complex(float('nan'), 0) if i in holes else complex(k, 1) for i, k in enumerate(base)],
+                            dtype='complex128')
+        return ser, {'kind': ext, 'mode': mode, 'missing': 'some' if holes else 'none', 'dtype': str(ser.dtype)}
     if kind == 'int':
         pool = rng.sample(range(-50, 1000), max(nrows, 3))
     elif kind == 'float':
@@ -57,7 +89,7 @@ def gen_column(rng, nrows):
     miss = rng.choice(['none', 'none', 'some', 'one', 'all'])
     nullv = rng.choice([None, np.nan])      # never mixed within a column (but see MIXED below)
     if MIXED[0] and kind in ('str', 'int') and nrows >= 2:
-        # both spellings of a missing value in ONE object column (known finding, see run_mixed)
+        # both spellings of a missing value in ONE object column (regression stream, see run_mixed)
         ks = rng.sample(range(nrows), 2)
         vals[ks[0]], vals[ks[1]] = None, np.nan
         for k in range(nrows):
@@ -303,9 +335,11 @@ def run_small(seed, n):
 
 
 def run_mixed(seed, n):
-    """Object columns holding BOTH None and NaN: Series.unique() keeps them apart, so the reported
-    number of distinct values counts the missing value twice.  Everything the small stream checks is
-    checked here too; disagreements are reported as spec failures tagged mixed_missing."""
+    """Regression stream: object columns holding BOTH None and NaN.  Series.unique() keeps the two
+    spellings apart; profile_table_for_join counts len(S.dropna().unique()) and adds one when a cell is
+    missing, so the missing value is ONE distinct value.  Everything the small stream checks is checked
+    here too (model = observed, exact counts, percentages, comments); a disagreement on a table with such
+    a column is reported as a spec failure of the distinct-value count."""
     MIXED[0] = True
     try:
         r = run_small(seed + 5, n)
